@@ -66,7 +66,7 @@ def s_txt(s, N, ind='  '):
     if h == 'block':
         out = ind + '{\n'
         for lid, init in s[1]:
-            out += ind + '  int %s = %s;\n' % (N[lid], e_txt(init, N))
+            out += ind + '  %sint %s = %s;\n' % ('const ' if N[lid].startswith('kc') else '', N[lid], e_txt(init, N))     # names kc... are const locals
         for x in s[2]:
             out += s_txt(x, N, ind + '  ')
         return out + ind + '}\n'
